@@ -122,20 +122,42 @@ Print Assumptions C05_x_nonvacuous.
    every run by a translator (harness/srcfacts/skeleton.go) from xsync_map.go and
    xsync_mapof.go: per public method, how often a syntactic path can perform each
    kind of primitive outside a closure run by the map, and how often such a closure
-   can invoke a user function.  proofs/Skel.v ties the model programs to it in both
-   directions; a change of the call structure of a method breaks these statements. *)
-From CacheV.proofs Require SkelDefs Skel.
+   can invoke a user function.  proofs/Skel*.v tie the model programs to it in both
+   directions; a change of the call structure of a method breaks these statements.
+   Each property uses the projection of the budgets it is about (SkelDefs.relax):
+   C02 all primitives, C05 map calls and user functions, C06 callbacks, C14 clock
+   and settings. *)
+From CacheV.proofs Require SkelDefs SkelMap.
 From CacheV.gen Require SrcFacts.
 From Coq Require String.
 
-(* the source's closures invoke a user function at most once, and only GetOrCompute / Compute have one;
-   SkelDefs.within (C02_model_within_source) carries the same bound for the model's closures *)
-Theorem C05_source_fn_once_per_closure :
-  Skel.fn_budget_ok SrcFacts.budgets_map = true /\ Skel.fn_budget_ok SrcFacts.budgets_mapof = true.
-Proof. exact Skel.fn_once_per_closure. Qed.
-Print Assumptions C05_source_fn_once_per_closure.
+(* map calls and user-function invocations: the model programs make the map calls the source makes, no more and no fewer,
+   and their closures invoke the user function at most as often as the source's *)
+Theorem C05_model_map_calls_within_source :
+  forall (K V : Type) (eqd : forall a b : K, {a = b} + {a <> b}) (zero : V) (o : CacheV.Ops.cop K V),
+    SkelDefs.is_call o ->
+    (SkelDefs.within (SkelDefs.relax SkelDefs.P_map true SrcFacts.budgets_map) (CacheV.Ops.prog_cache eqd zero) o /\
+     SkelDefs.within (SkelDefs.relax SkelDefs.P_map true SrcFacts.budgets_mapof) (CacheV.Ops.prog_cacheof eqd zero) o)%type.
+Proof.
+  intros K V eqd zero o H. split; [exact (SkelMap.cache_within_on eqd zero o H)|exact (SkelMap.cacheof_within_on eqd zero o H)].
+Qed.
+Print Assumptions C05_model_map_calls_within_source.
+Theorem C05_source_map_calls_within_model :
+  (SkelDefs.unattained_on SkelDefs.P_map true SrcFacts.budgets_map (CacheV.Ops.prog_cache Z.eq_dec 0%Z) = [] /\
+   SkelDefs.unattained_on SkelDefs.P_map true SrcFacts.budgets_mapof (CacheV.Ops.prog_cacheof Z.eq_dec 0%Z) = [])%type.
+Proof. exact SkelMap.attained_on. Qed.
+Print Assumptions C05_source_map_calls_within_model.
 
+(* the source's closures invoke a user function at most once, and only GetOrCompute / Compute have one *)
+Theorem C05_source_fn_once_per_closure :
+  (SkelMap.fn_budget_ok SrcFacts.budgets_map = true /\ SkelMap.fn_budget_ok SrcFacts.budgets_mapof = true)%type.
+Proof. exact SkelMap.fn_once_per_closure. Qed.
+Print Assumptions C05_source_fn_once_per_closure.
 Theorem C05_get_or_create_is_one_map_call :
-  Skel.single_compute SrcFacts.budgets_map = true /\ Skel.single_compute SrcFacts.budgets_mapof = true.
-Proof. exact Skel.rmw_single_compute. Qed.
+  (SkelMap.single_compute SrcFacts.budgets_map = true /\ SkelMap.single_compute SrcFacts.budgets_mapof = true)%type.
+Proof. exact SkelMap.rmw_single_compute. Qed.
 Print Assumptions C05_get_or_create_is_one_map_call.
+Theorem C05_source_fully_translated :
+  (SkelMap.no_unknown SrcFacts.budgets_map = true /\ SkelMap.no_unknown SrcFacts.budgets_mapof = true)%type.
+Proof. exact SkelMap.source_fully_translated. Qed.
+Print Assumptions C05_source_fully_translated.
